@@ -246,6 +246,12 @@ class DefGen:
                         f["type"] = ("struct " if rng.random() < 0.2 and s["kind"] == "struct" else "") + s["name"]
                         fdyn = self.dynamic[s["name"]]
                         sub_allint = self.allint[s["name"]]
+                        if sw["ptr"] and rng.random() < 0.2:
+                            # a pointer to that structure instead of the structure itself
+                            f["ptr"] = 1
+                            all_int = False
+                            fields.append(f)
+                            continue
                         if sw["structarray"] and rng.random() < 0.5:
                             if not fdyn:
                                 f["dims"] = [rng.randint(0, 3)]
